@@ -359,6 +359,183 @@ def asm_oracle(c, delivered):
     return None
 
 
+def spelled_out(packets):
+    """The PDUs a packet stream spells out, stated over what was SENT only: the stream is cut
+    into segments at every start fragment; a segment is a well-formed sequence iff its start
+    fragment and the continuation fragments that follow it (up to the next start) reach exactly
+    the announced length at a packet boundary without exceeding it before; it then spells
+    that PDU.  Continuations before any start, after a completed / exceeded segment, and
+    anything a later start cuts short spell nothing.  pb=3 packets carry no statement."""
+    out = []
+    cur = None
+    need = 0
+    for f in packets:
+        pb, data = f[1], f[4]
+        if pb in (0, 2):
+            if len(data) < 2:
+                cur = None      # behaviour on it is unspecified; generators put a start right after it
+                continue
+            need = struct.unpack_from('<H', data, 0)[0] + 4
+            cur = bytes(data)
+        elif pb == 1:
+            if cur is None:
+                continue
+            cur += bytes(data)
+        else:
+            continue
+        if len(cur) == need:
+            out.append(cur)
+            cur = None
+        elif len(cur) > need:
+            cur = None
+    return out
+
+
+def sent_oracle(packets, delivered):
+    """Every delivered PDU is one that was sent as a well-formed sequence; each of those is
+    delivered exactly once, in order."""
+    want = spelled_out(packets)
+    if delivered == want:
+        return None
+    for k, d in enumerate(delivered):
+        if k >= len(want) or d != want[k]:
+            if d not in want:
+                return 'unsent', f'delivery {k} is a {len(d)}-byte PDU that no well-formed fragment sequence spelled out'
+            if delivered.count(d) > want.count(d):
+                return 'duplicate', f'delivery {k}: a {len(d)}-byte PDU was delivered more often than it was sent'
+            return 'order', f'delivery {k}: PDUs arrive out of order or one before it is missing'
+    return 'missing', f'{len(want) - len(delivered)} PDU(s) sent as well-formed sequences were not delivered'
+
+
+def gen_stale_case(rng):
+    """Multi-step malformed sequences around a STALE PARTIAL PDU:
+    [start of a multi-fragment PDU whose continuations never arrive] (+ a short continuation)
+    + [k >= 1 complete single-fragment PDUs] + [orphan continuation(s), in particular exactly
+    completing the stale announced length] + [well-formed PDUs], repeated."""
+    m = rng.choice([6, 7, 8, 12, 16, 27, 27, 64])
+    handle = rng.choice([1, 2, 0x40])
+    stream = []
+    good = []
+    kinds = []
+    tag = [0]
+
+    def payload(n):
+        tag[0] += 1
+        return bytes(((tag[0] * 37 + i) & 255) for i in range(n))
+
+    def good_pdu(n):
+        cid = rng.choice([4, 5, 6, FIXED_CID])
+        p = payload(n)
+        good.append((cid, p))
+        stream.append(('PDU', cid, p))
+
+    for _ in range(rng.range(1, 3)):
+        if rng.chance(1, 4):
+            good_pdu(rng.choice([0, 1, m - 4, m - 3, 2 * m, 3 * m - 4]))
+        # start of PDU A, announced total T bytes, carrying c of them
+        T = 4 + rng.choice([m - 3, m, m + 1, 2 * m - 4, 2 * m, 3 * m + 1, rng.range(m - 3, 4 * m)])
+        c = rng.choice([2, 3, 4, m - 1, m, rng.range(2, m)])
+        c = max(2, min(c, m, T - 1))
+        body = struct.pack('<HH', T - 4, rng.choice([4, FIXED_CID])) + payload(T - 4)
+        stream.append([handle, rng.choice([0, 2]), 0, c, body[:c]])
+        carried = c
+        kinds.append('stale_start')
+        if rng.chance(1, 3) and T - carried >= 2:
+            k = rng.range(1, T - carried - 1)
+            stream.append([handle, 1, 0, k, body[carried:carried + k]])
+            carried += k
+            kinds.append('stale_short_cont')
+        for _ in range(rng.choice([1, 1, 2, 3])):
+            good_pdu(rng.range(0, m - 4))          # complete in a single ACL packet
+        kinds.append('single_fragment_pdus')
+        rem = T - carried
+        how = rng.choice(['exact', 'exact', 'exact_split', 'short', 'over', 'real_tail', 'random'])
+        kinds.append('orphan_' + how)
+        if how == 'exact':
+            lens = [rem]
+        elif how == 'exact_split' and rem >= 2:
+            k = rng.range(1, rem - 1)
+            lens = [k, rem - k]
+        elif how == 'short':
+            lens = [max(1, rem - 1)]
+        elif how == 'over':
+            lens = [rem + rng.range(1, 3)]
+        elif how == 'real_tail':
+            lens = None
+        else:
+            lens = [rng.range(1, 2 * m)]
+        if lens is None:
+            tail = body[carried:]
+            for o in range(0, len(tail), m):
+                stream.append([handle, 1, 0, len(tail[o:o + m]), tail[o:o + m]])
+        else:
+            for n in lens:
+                stream.append([handle, 1, 0, n, payload(n)])
+        if rng.chance(1, 2):
+            stream.append([handle, 1, 0, 1, b'\x99'])
+        if rng.chance(2, 3):
+            good_pdu(rng.choice([0, 1, m - 4, m - 3, 2 * m - 4, 2 * m + 1, 3 * m]))
+    return {'m': m, 'handle': handle, 'stream': stream, 'good': good, 'extra': [], 'kinds': kinds}
+
+
+SCOPE_LETTERS = ['SC', 'SP', 'CC', 'CS', 'CO']
+
+
+def scope_packets(seq, handle):
+    """Small-scope alphabet: SC start carrying a complete 7-byte PDU; SP start announcing 10
+    bytes and carrying 6 (4 missing); CC / CS / CO continuations of 4 (completes a fresh SP) /
+    2 (short; two of them complete) / 7 (exceeds) bytes.  Every packet has its own byte values."""
+    out = []
+    for i, letter in enumerate(seq):
+        t = 0x10 * (i + 1)
+        pb0 = 2 if i % 2 else 0
+        if letter == 'SC':
+            d = struct.pack('<HH', 3, FIXED_CID) + bytes([t, t + 1, t + 2])
+            out.append([handle, pb0, 0, len(d), d])
+        elif letter == 'SP':
+            d = struct.pack('<HH', 6, FIXED_CID) + bytes([t, t + 1])
+            out.append([handle, pb0, 0, len(d), d])
+        else:
+            n = {'CC': 4, 'CS': 2, 'CO': 7}[letter]
+            d = bytes(t + j for j in range(n))
+            out.append([handle, 1, 0, n, d])
+    return out
+
+
+def scope_sequences(max_len):
+    import itertools
+    for n in range(1, max_len + 1):
+        yield from itertools.product(SCOPE_LETTERS, repeat=n)
+
+
+class HostFeeder:
+    """One real Host reused for many sequences; every sequence gets a fresh Connection
+    (hence a fresh assembler)."""
+
+    def __init__(self, handle):
+        self.handle = handle
+        self.host, _, _ = make_host(27, 8, True)
+        self.got = []
+        self.host.on('l2cap_pdu', lambda h, cid, pdu: self.got.append(struct.pack('<HH', len(pdu), cid) + bytes(pdu)))
+
+    def run(self, packets):
+        from bumble import hci
+        add_connection(self.host, self.handle, True)
+        self.got.clear()
+        for f in packets:
+            try:
+                self.host.on_packet(bytes(hci.HCI_AclDataPacket(f[0], f[1], f[2], f[3], f[4])))
+            except (struct.error, AssertionError):
+                pass
+        return list(self.got)
+
+
+def asm_replay_obj(packets, via_host, handle, m, good=(), extra=()):
+    return {'kind': 'asm', 'via_host': via_host, 'handle': handle, 'm': m,
+            'packets': [[f[0], f[1], f[2], f[3], bytes(f[4]).hex()] for f in packets],
+            'good': [[cid, p.hex()] for cid, p in good], 'extra': [e.hex() for e in extra]}
+
+
 # ----------------------------------------------------------------------------- C: ISO
 def gen_iso_case(rng):
     maxp = rng.choice([1, 4, 5, 6, 8, 16, 27, 64, 251, 960, 960])
@@ -765,7 +942,7 @@ def run(ctx):
         'A: random (m, n, transport, handle) x 1-4 PDUs whose L2CAP length sits at k*m-1, k*m, k*m+1 (and 0, 1, random) '
         'sent through the real Host.send_l2cap_pdu behind a real DataPacketQueue, credits returned through the real '
         'completion handler; B: those real fragments interleaved with 11 kinds of malformed fragment sequences fed to the '
-        'real assembler (bare and via Host.on_packet); C: real send_iso_sdu over random ISO packet lengths / sequence '
+        'real assembler (bare and via Host.on_packet), plus stale-partial sequences (abandoned start, complete single-fragment PDUs, orphan continuations exactly completing / short of / exceeding the stale length) and EVERY sequence of <= 5 (7) packets over {start-complete, start-partial, continuation completing/short/exceeding}; C: real send_iso_sdu over random ISO packet lengths / sequence '
         'numbers near the wrap; D: two real Devices+Controllers on a LocalLink with per-controller ACL length/count, '
         'PDUs both ways incl. 65531..65535 bytes; E: L2CAP/ACL codecs. Non-trivial: at least one PDU needs >= 2 fragments '
         '(A, D), at least one malformed sequence present (B), at least one SDU needs >= 2 fragments (C); distinct by content.')
@@ -841,13 +1018,46 @@ def run(ctx):
 
     # ---------------- B: assembler
     ctx.log('B: assembler')
-    asm_cases = [gen_asm_case(rng) for _ in range(ctx.n(160, 3000))]
+    asm_cases = [gen_asm_case(rng) for _ in range(ctx.n(140, 3000))]
+    asm_cases += [gen_stale_case(rng) for _ in range(ctx.n(120, 3000))]
     streams = [realise_stream(c) for c in asm_cases]
     asm_runs = []
     for k, (c, s) in enumerate(zip(asm_cases, streams)):
         via_host = k % 2 == 1
         asm_runs.append(run_asm_impl(s, via_host, c['handle']))
         c['idx'] = batch.add(asm_expr(s, via_host))
+
+    # small scope, complete: every sequence of up to N packets over {start-complete, start-partial,
+    # continuation completing / short / exceeding}; judged by the oracle on the bare assembler and
+    # through Host.on_packet; compared with the model up to a smaller N (50 sequences per expression)
+    n_bare, n_host, n_model = ctx.n(5, 7), ctx.n(4, 5), ctx.n(4, 6)
+    ctx.extra['exhaustive_assembler_scope'] = (f'all sequences over {SCOPE_LETTERS} of length <= {n_bare} (bare assembler), '
+                                               f'<= {n_host} (Host.on_packet), <= {n_model} (also against the model)')
+    feeder = HostFeeder(1)
+    scope_model = []          # (sequence, bare deliveries)
+    for seq in scope_sequences(n_bare):
+        pk = scope_packets(seq, 1)
+        got, _ = run_asm_impl(pk, False, 1)
+        ctx.case(('scope', seq), True, None)
+        ctx.count('B.scope.sequences')
+        runs = [('bare', got)]
+        if len(seq) <= n_host:
+            runs.append(('host', feeder.run(pk)))
+            ctx.count('B.scope.via_host')
+        for how, g in runs:
+            bad = sent_oracle(pk, g)
+            if bad:
+                ctx.violation(f'asm:scope:{bad[0]}:' + '-'.join(seq),
+                              f'assembler ({how}) fed {"-".join(seq)}: {bad[1]}',
+                              asm_replay_obj(pk, how == 'host', 1, 0))
+        if len(seq) <= n_model:
+            scope_model.append((seq, pk, got))
+    scope_idx = []
+    for i in range(0, len(scope_model), 50):
+        chunk = scope_model[i:i + 50]
+        lists = coq_list([pk for _, pk, _ in chunk],
+                         lambda pk: coq_list(pk, lambda f: f'mkAcl {f[0]} {f[1]} {f[2]} {f[3]} {coq_bytes(f[4])}'))
+        scope_idx.append((chunk, batch.add(f"map (fun ps => deliveries (snd (asm_run asm_init ps))) {lists}", cost=2)))
 
     # ---------------- C: ISO
     ctx.log('C: send_iso_sdu')
@@ -991,6 +1201,16 @@ def run(ctx):
         if bad:
             ctx.violation('asm:' + bad.split('(')[0].strip().replace(' ', '_')[:40],
                           f'assembler m={c["m"]} junk={c["kinds"]}: {bad}', replay)
+        bad = sent_oracle(s, raw)
+        if bad:
+            ctx.violation('asm:sent:' + bad[0], f'assembler m={c["m"]} junk={c["kinds"]}: {bad[1]}', replay)
+
+    for chunk, i in scope_idx:
+        for (seq, pk, got), mdel in zip(chunk, model[i]):
+            ctx.count('B.scope.model_compared')
+            if [bytes(x) for x in mdel] != got:
+                ctx.disagree('HCI_AclDataPacketAssembler (small scope)', asm_replay_obj(pk, False, 1, 0),
+                             repr([bytes(x) for x in mdel])[:400], repr(got)[:400])
 
     for k, (c, (out, final_seq)) in enumerate(zip(iso_cases, iso_runs)):
         mout, mseq = iso_model_norm(model[c['idx']])
@@ -1068,6 +1288,14 @@ def search(ctx):
                            'packets': [[f[0], f[1], f[2], f[3], f[4].hex()] for f in pk],
                            'good': [[cid, pat(*s).hex()] for cid, s in pdus], 'extra': []})
             return
+    for seq in scope_sequences(6):
+        pk = scope_packets(seq, 1)
+        got, _ = run_asm_impl(pk, False, 1)
+        bad = sent_oracle(pk, got)
+        if bad:
+            ctx.violation(f'search:asm:scope:{bad[0]}:' + '-'.join(seq), f'assembler fed {"-".join(seq)}: {bad[1]}',
+                          asm_replay_obj(pk, False, 1, 0))
+            return
     for k in range(40):
         c = gen_two_case(rng, big=(k % 4 == 0))
         check_two(ctx, c, k)
@@ -1122,9 +1350,11 @@ def replay(ctx, obj):
         raw = [struct.pack('<HH', len(p), cid) + p for _, cid, p in got] if r['via_host'] else got
         c = {'good': [(cid, bytes.fromhex(p)) for cid, p in r['good']], 'extra': [bytes.fromhex(e) for e in r['extra']], 'm': r['m']}
         print('delivered', [x.hex() for x in raw], 'exceptions', errors)
-        bad = asm_oracle(c, raw)
-        print('oracle:', bad or 'holds')
-        return 1 if bad else 0
+        print('sent as well-formed sequences', [x.hex() for x in spelled_out(pk)])
+        bad = asm_oracle(c, raw) if (c['good'] or c['extra']) else None   # small-scope replays carry the packets only
+        bad2 = sent_oracle(pk, raw)
+        print('oracle:', bad or (bad2[1] if bad2 else 'holds'))
+        return 1 if (bad or bad2) else 0
     if kind == 'iso':
         c = {'maxp': r['maxp'], 'n': r['n'], 'handle': r['handle'], 'seq0': r['seq0'], 'bis': r['bis'],
              'sdus': [tuple(s) for s in r['sdus']]}
